@@ -25,8 +25,14 @@
 (*          "empty" array with an extent 0; "str" / "none": the array has  *)
 (*          an entry that is a (non-numeric) string / None;                *)
 (*          str: "right" | "left" | "other";                               *)
-(*          callable: "good" | "none_ret" | "badargs" | "badshape" |       *)
-(*                    "badtype" | "raises";  otherwise "na"                *)
+(*          callable: what the function answers for field "B" when probed  *)
+(*             with observers of shape (n,3) -- its answer for field "H"   *)
+(*             is carried by geom --, each one of CallAns:                 *)
+(*             "none" (None: this field is not available), "ok" (ndarray   *)
+(*             (n,3)), "shape1" (ndarray (n,)), "shape2" (ndarray (n,2)),  *)
+(*             "list" (nested list instead of ndarray), "raises";          *)
+(*             or "badargs" (first two parameters are not named `field`,   *)
+(*             `observers`; geom "na");  otherwise "na"                    *)
 (*  geom    for numeric arrays of shape (5,): first matching of            *)
 (*          "r1<0","r1>r2","r1=r2","h<0","h=0","phi1>phi2","phi1=phi2",    *)
 (*          "dphi>360","ok" read as (r1,r2,h,phi1,phi2); shape (4,3):      *)
@@ -155,11 +161,14 @@ AltPixel(v) == NoneAlt(v)
 AltHandedness(v) == If(v.kind = "str" /\ v.entries \in {"right", "left"}, {Acc(TRUE, "str", <<>>, "na")})
 
 \* CustomSource "field_func: callable, default=`None` ... must have the two positional arguments `field` and
-\* `observers` ... the returned fields must be numpy ndarrays of shape (n,3)"; a function returning None for
-\* both fields is not described (doc = FALSE)
+\* `observers`. With `field='B'` or `field='H'` the B- or H-field ... must be returned respectively ... the returned
+\* fields must be numpy ndarrays of shape (n,3)"; None for a field means that this field is not available (getB/getH
+\* then raise MagpylibMissingInput).  The decision is PER FIELD: accepted iff every answer that is not None is a
+\* valid (n,3) ndarray; a function returning None for both fields is not described (doc = FALSE)
+CallAns == {"none", "ok", "shape1", "shape2", "list", "raises"}
 AltFieldFunc(v) == NoneAlt(v)
-  \cup If(v.kind = "callable" /\ v.entries = "good", {Acc(TRUE, "callable", <<>>, "na")})
-  \cup If(v.kind = "callable" /\ v.entries = "none_ret", {Acc(FALSE, "callable", <<>>, "na")})
+  \cup If(v.kind = "callable" /\ v.entries \in {"none", "ok"} /\ v.geom \in {"none", "ok"},
+          {Acc(~(v.entries = "none" /\ v.geom = "none"), "callable", <<>>, "na")})
 
 Alternatives(c, a, v) ==
     CASE a = "position"     -> AltPosition(v)
@@ -194,7 +203,7 @@ Grey(c, a, v) ==
     \* TriangularMesh without any vertex / face (an object that later fails is caught by the `later` clause)
     \/ (a \in {"vertices", "faces"} /\ c = "TriangularMesh" /\ v.kind = "array" /\ v.entries = "empty" /\ Rank(v) = 2 /\ v.shape[2] = 3)
     \* an exception raised by the user's own function while it is probed
-    \/ (a = "field_func" /\ v.kind = "callable" /\ v.entries = "raises")
+    \/ (a = "field_func" /\ v.kind = "callable" /\ (v.entries = "raises" \/ v.geom = "raises"))
 
 Decide(c, a, v) == LET alts == Alternatives(c, a, v) IN
                    IF alts = {} THEN Rej(~Grey(c, a, v)) ELSE CHOOSE d \in alts : TRUE
